@@ -11,6 +11,7 @@
 //   sq <fn> <L> <mode>       size-query protocol: mode = null | zero | one | short | exact | larger
 //   trace t:op,t:op,...      sequences over threads (see do_trace)
 //   bnd <family> ...         scalar boundary values, C result vs C++ twin
+//   bnd fwd <wrapper> v...   forwarding probe: distinct arguments per parameter, C result vs C++ twin
 #include <primitiv/c/api.h>
 
 #include <primitiv/primitiv.h>
@@ -429,11 +430,14 @@ static std::string cmp(const std::string &c, const std::string &cpp) {
 }
 static float f_of(const std::string &bits) { uint32_t u = pvh::u32(bits); float f; std::memcpy(&f, &u, 4); return f; }
 
+static std::string do_fwd(const std::vector<std::string> &t);
+
 static std::string do_bnd(const std::vector<std::string> &t) {
   using namespace primitiv;
   namespace fn = primitiv::functions;
   const std::string &fam = t[1];
   primitivResetStatus();
+  if (fam == "fwd") return do_fwd(t);
   if (fam == "shape_ctor") {                       // bnd shape_ctor <dims|-> <batch>
     std::vector<uint32_t> d = pvh::u32list(t[2]); uint32_t b = pvh::u32(t[3]);
     static const uint32_t none[1] = {0};
@@ -562,6 +566,255 @@ static std::string do_bnd(const std::vector<std::string> &t) {
     return cmp(c, cpp);
   }
   return "bad-family";
+}
+
+// ---------------------------------------------------------------------------- forwarding probes vs the C++ twin
+//
+//   bnd fwd <wrapper> <v0> <v1> ...
+// The values are the wrapper's SCALAR in-parameters in declaration order, as 32-bit patterns
+// (uint32_t / size_t / PRIMITIV_C_BOOL: the number; float: its bits).  Object parameters get
+// pairwise DIFFERENT fixtures (A = [1 2 3 4], B = [5 6 7 9], both 2x2), so a wrapper that hands
+// two parameters on in swapped order, drops or duplicates one gives a result different from the
+// C++ call written here in declaration order.  PRIMITIV_C_BOOL values are compared with the C++
+// call on `v != 0` (c/define.h: every non-zero value is true).  `unknown-wrapper`: no twin here.
+
+static const float DATA_B[4] = {5.f, 6.f, 7.f, 9.f};
+// the twins below are harness code: not instrumenting them keeps the compile time of this file down
+#define PV_NOSAN __attribute__((no_sanitize("address", "undefined")))
+
+static std::string c_node_digest(const primitivNode_t *x) {
+  // a Node is evaluated lazily: an invalid argument may only show when the value is asked for
+  primitivShape_t *s; OKC(primitivGetNodeShape(x, &s));
+  size_t n = 0;
+  if (primitivEvaluateNodeAsArray(x, nullptr, &n) != PRIMITIV_C_OK) return c_shape_digest(s) + " evaluation-error";
+  std::vector<float> v(n); size_t m = n; if (n) OKC(primitivEvaluateNodeAsArray(x, v.data(), &m));
+  return c_shape_digest(s) + " " + vec_digest(v);
+}
+static std::string cpp_node_digest(const primitiv::Node &x) {
+  std::string sh = cpp_shape_digest(x.shape());
+  try { return sh + " " + vec_digest(x.to_vector()); } catch (const std::exception &) { return sh + " evaluation-error"; }
+}
+static std::string file_digest(const std::string &path) {
+  FILE *f = std::fopen(path.c_str(), "rb");
+  if (!f) return "<no file>";
+  uint64_t h = 1469598103934665603ull; size_t n = 0; int ch;
+  while ((ch = std::fgetc(f)) != EOF) { h = (h ^ (uint64_t)(unsigned char)ch) * 1099511628211ull; ++n; }
+  std::fclose(f);
+  return std::to_string(n) + "bytes:" + std::to_string(h);
+}
+static std::string cpp_opt_digest(const primitiv::Optimizer &o) {
+  std::unordered_map<std::string, uint32_t> uc; std::unordered_map<std::string, float> fc; o.get_configs(uc, fc);
+  std::map<std::string, std::string> all;
+  for (auto &kv : uc) all["u:" + kv.first] = std::to_string(kv.second);
+  for (auto &kv : fc) all["f:" + kv.first] = fbits(kv.second);
+  std::string s; for (auto &kv : all) s += kv.first + "=" + kv.second + ";";
+  return s;
+}
+// the same keys read one by one through the C API
+static std::string c_opt_digest(const primitivOptimizer_t *o, const primitiv::Optimizer &keys_of) {
+  std::unordered_map<std::string, uint32_t> uc; std::unordered_map<std::string, float> fc; keys_of.get_configs(uc, fc);
+  std::map<std::string, std::string> all;
+  for (auto &kv : uc) { uint32_t x = 0xdeadbeef; OKC(primitivGetOptimizerIntConfig(o, kv.first.c_str(), &x)); all["u:" + kv.first] = std::to_string(x); }
+  for (auto &kv : fc) { float x = -12345.f; OKC(primitivGetOptimizerFloatConfig(o, kv.first.c_str(), &x)); all["f:" + kv.first] = fbits(x); }
+  std::string s; for (auto &kv : all) s += kv.first + "=" + kv.second + ";";
+  return s;
+}
+
+// the two runners: fixtures A / B on the C side, the equal C++ objects TA / TB, one C call, one C++ call
+struct FwdArgs {
+  std::vector<uint32_t> v; uint32_t ids8[8];
+  float f(size_t i) const { float x; std::memcpy(&x, &v[i], 4); return x; }
+};
+typedef int (*CTensorCall)(const FwdArgs &, const primitivTensor_t *, const primitivTensor_t *, const primitivTensor_t *const *, primitivTensor_t **);
+typedef primitiv::Tensor (*CppTensorCall)(const FwdArgs &, const primitiv::Tensor &, const primitiv::Tensor &, const std::vector<const primitiv::Tensor *> &);
+typedef int (*CNodeCall)(const FwdArgs &, const primitivNode_t *, const primitivNode_t *, const primitivNode_t *const *, primitivNode_t **);
+typedef primitiv::Node (*CppNodeCall)(const FwdArgs &, const primitiv::Node &, const primitiv::Node &, const std::vector<const primitiv::Node *> &);
+
+static std::string twin_tensor(Twin &T, const FwdArgs &X, CTensorCall cc, CppTensorCall pp) {
+  using namespace primitiv;
+  primitivTensor_t *y = nullptr; const primitivTensor_t *A = F.tensor(); primitivTensor_t *B = nullptr;
+  OKC(primitivApplyTensorInput(F.shape(), DATA_B, 4, F.dev, &B));
+  const Tensor &TA = T.tensor; Tensor TB = functions::input_tensor(T.shape, {5, 6, 7, 9}, &T.dev);
+  const primitivTensor_t *AB[2] = {A, B}; std::vector<const Tensor *> TAB{&TA, &TB};
+  int st = cc(X, A, B, AB, &y);
+  std::string c = st == PRIMITIV_C_OK ? "ok " + c_tensor_digest(y) : "err";
+  std::string cpp;
+  try { cpp = "ok " + cpp_tensor_digest(pp(X, TA, TB, TAB)); } catch (const std::exception &) { cpp = "err"; }
+  return cmp(c, cpp);
+}
+static std::string twin_node(Twin &T, const FwdArgs &X, CNodeCall cc, CppNodeCall pp) {
+  using namespace primitiv;
+  primitivNode_t *y = nullptr; const primitivNode_t *A = F.node(); primitivNode_t *B = nullptr;
+  OKC(primitivApplyNodeInput(F.shape(), DATA_B, 4, F.dev, F.g, &B));
+  const Node &TA = T.node; Node TB = functions::input_node(T.shape, {5, 6, 7, 9}, &T.dev, &T.g);
+  const primitivNode_t *AB[2] = {A, B}; std::vector<const Node *> TAB{&TA, &TB};
+  int st = cc(X, A, B, AB, &y);
+  std::string c = st == PRIMITIV_C_OK ? "ok " + c_node_digest(y) : "err";
+  std::string cpp;
+  try { cpp = "ok " + cpp_node_digest(pp(X, TA, TB, TAB)); } catch (const std::exception &) { cpp = "err"; }
+  return cmp(c, cpp);
+}
+
+PV_NOSAN static std::string do_fwd(const std::vector<std::string> &t) {
+  using namespace primitiv;
+  namespace fn = primitiv::functions;
+  const std::string &name = t[2];
+  FwdArgs X;
+  for (size_t i = 3; i < t.size(); ++i) X.v.push_back(pvh::u32(t[i]));
+  while (X.v.size() < 8) X.v.push_back(1);
+  for (uint32_t &x : X.ids8) x = 0;
+  const std::vector<uint32_t> &v = X.v;
+  auto fl = [&](size_t i) { return X.f(i); };
+  primitivResetStatus();
+  Twin T;
+  int st = 12345; std::string c, cpp;
+  const uint32_t SEED = 20201;
+
+  // ---- functions that exist for Tensor and for Node: one line each, expanded for both kinds
+  //      (A, B: the two fixtures; AB: the array {A, B}; y: the output; K: Tensor / Node)
+#define KIND2(N, ARGS, CPP) \
+  if (name == "primitivApplyTensor" #N) return twin_tensor(T, X, \
+    [](const FwdArgs &X, const primitivTensor_t *A, const primitivTensor_t *B, const primitivTensor_t *const *AB, primitivTensor_t **y) PV_NOSAN -> int { (void)X; (void)A; (void)B; (void)AB; return primitivApplyTensor##N ARGS; }, \
+    [](const FwdArgs &X, const Tensor &TA, const Tensor &TB, const std::vector<const Tensor *> &TAB) PV_NOSAN -> Tensor { typedef Tensor K; (void)X; (void)TA; (void)TB; (void)TAB; (void)sizeof(K); return CPP; }); \
+  if (name == "primitivApplyNode" #N) return twin_node(T, X, \
+    [](const FwdArgs &X, const primitivNode_t *A, const primitivNode_t *B, const primitivNode_t *const *AB, primitivNode_t **y) PV_NOSAN -> int { (void)X; (void)A; (void)B; (void)AB; return primitivApplyNode##N ARGS; }, \
+    [](const FwdArgs &X, const Node &TA, const Node &TB, const std::vector<const Node *> &TAB) PV_NOSAN -> Node { typedef Node K; (void)X; (void)TA; (void)TB; (void)TAB; (void)sizeof(K); return CPP; });
+  KIND2(Add, (A, B, y), fn::add(TA, TB))
+  KIND2(Subtract, (A, B, y), fn::subtract(TA, TB))
+  KIND2(Multiply, (A, B, y), fn::multiply(TA, TB))
+  KIND2(Divide, (A, B, y), fn::divide(TA, TB))
+  KIND2(Pow, (A, B, y), fn::pow(TA, TB))
+  KIND2(Matmul, (A, B, y), fn::matmul(TA, TB))
+  KIND2(SoftmaxCrossEntropy, (A, B, X.v[0], y), fn::softmax_cross_entropy(TA, TB, X.v[0]))
+  KIND2(Flip, (A, X.v[0], y), fn::flip(TA, X.v[0]))
+  KIND2(Sum, (A, X.v[0], y), fn::sum(TA, X.v[0]))
+  KIND2(Max, (A, X.v[0], y), fn::max(TA, X.v[0]))
+  KIND2(Min, (A, X.v[0], y), fn::min(TA, X.v[0]))
+  KIND2(Mean, (A, X.v[0], y), fn::mean(TA, X.v[0]))
+  KIND2(Logsumexp, (A, X.v[0], y), fn::logsumexp(TA, X.v[0]))
+  KIND2(Softmax, (A, X.v[0], y), fn::softmax(TA, X.v[0]))
+  KIND2(LogSoftmax, (A, X.v[0], y), fn::log_softmax(TA, X.v[0]))
+  KIND2(Slice, (A, X.v[0], X.v[1], X.v[2], y), fn::slice(TA, X.v[0], X.v[1], X.v[2]))
+  KIND2(BatchSlice, (A, X.v[0], X.v[1], y), fn::batch::slice(TA, X.v[0], X.v[1]))
+  KIND2(Broadcast, (A, X.v[0], X.v[1], y), fn::broadcast(TA, X.v[0], X.v[1]))
+  KIND2(Conv2d, (A, B, X.v[0], X.v[1], X.v[2], X.v[3], X.v[4], X.v[5], y), fn::conv2d(TA, TB, X.v[0], X.v[1], X.v[2], X.v[3], X.v[4], X.v[5]))
+  KIND2(MaxPool2d, (A, X.v[0], X.v[1], X.v[2], X.v[3], X.v[4], X.v[5], y), fn::max_pool2d(TA, X.v[0], X.v[1], X.v[2], X.v[3], X.v[4], X.v[5]))
+  if (name.find("Pick") != std::string::npos || name.find("WithArray") != std::string::npos) {
+    if (v[0] > 8) return "na";          // (ids, n): n elements of the 8-element array ids8 = {0, ...}
+  }
+  KIND2(Pick, (A, X.ids8, X.v[0], X.v[1], y), fn::pick(TA, std::vector<uint32_t>(X.ids8, X.ids8 + X.v[0]), X.v[1]))
+  KIND2(SoftmaxCrossEntropyWithArray, (A, X.ids8, X.v[0], X.v[1], y), fn::softmax_cross_entropy(TA, std::vector<uint32_t>(X.ids8, X.ids8 + X.v[0]), X.v[1]))
+  if (name.find("Concat") != std::string::npos && v[0] > 2) return "na";   // (xs, n): n of the 2 handles {A, B}
+  KIND2(Concat, (AB, X.v[0], X.v[1], y), fn::concat(std::vector<const K *>(TAB.begin(), TAB.begin() + X.v[0]), X.v[1]))
+  if (name.find("Dropout") != std::string::npos && fl(0) != 0.f && fl(0) != 1.f) return "na";   // other rates draw random numbers
+  KIND2(Dropout, (A, X.f(0), X.v[1], y), fn::dropout(TA, X.f(0), X.v[1] != 0))
+#undef KIND2
+
+  // ---- random sources: both sides on a fresh device with the same seed
+#define RAND2(N, CPPN) \
+  if (name == "primitivApplyTensorRandom" #N) { \
+    primitivDevice_t *d = nullptr; OKC(primitivCreateNaiveDeviceWithSeed(SEED, &d)); devices::Naive D(SEED); \
+    primitivTensor_t *y = nullptr; \
+    st = primitivApplyTensorRandom##N(F.shape(), fl(0), fl(1), d, &y); \
+    c = st == PRIMITIV_C_OK ? "ok " + c_tensor_digest(y) : "err"; \
+    cpp = cpp_try([&] { return cpp_tensor_digest(fn::random::CPPN##_tensor(T.shape, fl(0), fl(1), &D)); }); \
+    return cmp(c, cpp); \
+  } \
+  if (name == "primitivApplyNodeRandom" #N) { \
+    primitivDevice_t *d = nullptr; OKC(primitivCreateNaiveDeviceWithSeed(SEED, &d)); devices::Naive D(SEED); \
+    primitivNode_t *y = nullptr; \
+    st = primitivApplyNodeRandom##N(F.shape(), fl(0), fl(1), d, F.g, &y); \
+    c = st == PRIMITIV_C_OK ? "ok " + c_node_digest(y) : "err"; \
+    cpp = cpp_try([&] { return cpp_node_digest(fn::random::CPPN##_node(T.shape, fl(0), fl(1), &D, &T.g)); }); \
+    return cmp(c, cpp); \
+  }
+  RAND2(Uniform, uniform)
+  RAND2(Normal, normal)
+  RAND2(LogNormal, log_normal)
+  RAND2(Gumbel, gumbel)
+#undef RAND2
+
+  // ---- initializers with two scalars: applied to a tensor on a freshly seeded device
+#define INIT2(N, CPPCLS) \
+  if (name == "primitivCreate" #N "Initializer") { \
+    primitivDevice_t *d = nullptr; OKC(primitivCreateNaiveDeviceWithSeed(SEED, &d)); devices::Naive D(SEED); \
+    primitivTensor_t *z = nullptr; OKC(primitivApplyTensorInput(F.shape(), DATA4, 4, d, &z)); \
+    primitivInitializer_t *in = nullptr; \
+    st = primitivCreate##N##Initializer(fl(0), fl(1), &in); \
+    c = "err"; \
+    if (st == PRIMITIV_C_OK) { st = primitivApplyInitializer(in, z); if (st == PRIMITIV_C_OK) c = "ok " + c_tensor_digest(z); } \
+    cpp = cpp_try([&] { Tensor Z = fn::input_tensor(T.shape, {1, 2, 3, 4}, &D); initializers::CPPCLS I(fl(0), fl(1)); I.apply(Z); return cpp_tensor_digest(Z); }); \
+    return cmp(c, cpp); \
+  }
+  INIT2(Uniform, Uniform)
+  INIT2(Normal, Normal)
+#undef INIT2
+
+  // ---- optimizer constructors: every configuration value read back
+#define OPTC(N, CPPCLS, CARGS, CPPARGS) \
+  if (name == "primitivCreate" #N "Optimizer") { \
+    primitivOptimizer_t *o = nullptr; \
+    st = primitivCreate##N##Optimizer CARGS; \
+    cpp = "err"; c = "err"; \
+    try { optimizers::CPPCLS O CPPARGS; cpp = "ok " + cpp_opt_digest(O); if (st == PRIMITIV_C_OK) c = "ok " + c_opt_digest(o, O); } \
+    catch (const std::exception &) { if (st == PRIMITIV_C_OK) c = "ok <C++ constructor threw>"; } \
+    return cmp(c, cpp); \
+  }
+  OPTC(MomentumSgd, MomentumSGD, (fl(0), fl(1), &o), (fl(0), fl(1)))
+  OPTC(AdaGrad, AdaGrad, (fl(0), fl(1), &o), (fl(0), fl(1)))
+  OPTC(RmsProp, RMSProp, (fl(0), fl(1), fl(2), &o), (fl(0), fl(1), fl(2)))
+  OPTC(AdaDelta, AdaDelta, (fl(0), fl(1), &o), (fl(0), fl(1)))
+  OPTC(Adam, Adam, (fl(0), fl(1), fl(2), fl(3), &o), (fl(0), fl(1), fl(2), fl(3)))
+#undef OPTC
+
+  // ---- with_stats of load / save (parameter file F.param_path holds the value and the statistics "a")
+  const std::string c_out = F.dir + "/fwd_c.bin", cpp_out = F.dir + "/fwd_cpp.bin", mfile = F.dir + "/fwd_model.bin";
+  if (name == "primitivLoadParameter") {
+    primitivParameter_t *p = nullptr; OKC(primitivCreateParameter(&p));
+    st = primitivLoadParameter(p, F.param_path.c_str(), v[0], F.dev);
+    c = "err";
+    if (st == PRIMITIV_C_OK) {
+      PRIMITIV_C_BOOL hs = 7; OKC(primitivHasParameterStats(p, "a", &hs));
+      const primitivTensor_t *val = nullptr; OKC(primitivGetParameterValue(p, &val));
+      c = "ok stats=" + std::to_string(hs) + " " + c_tensor_digest(val);
+    }
+    cpp = cpp_try([&] { Parameter P; P.load(F.param_path, v[0] != 0, &T.dev);
+                        return "stats=" + std::to_string((unsigned)P.has_stats("a")) + " " + cpp_tensor_digest(P.value()); });
+    return cmp(c, cpp);
+  }
+  if (name == "primitivSaveParameter") {
+    st = primitivSaveParameter(F.param(), c_out.c_str(), v[0]);
+    c = st == PRIMITIV_C_OK ? "ok " + file_digest(c_out) : "err";
+    cpp = cpp_try([&] { Parameter P; P.load(F.param_path, true, &T.dev); P.save(cpp_out, v[0] != 0); return file_digest(cpp_out); });
+    return cmp(c, cpp);
+  }
+  if (name == "primitivLoadModel" || name == "primitivSaveModel") {
+    // a model whose parameter "p" carries the statistics "a", on both sides
+    primitivParameter_t *p1 = nullptr; OKC(primitivCreateParameter(&p1)); OKC(primitivLoadParameter(p1, F.param_path.c_str(), PRIMITIV_C_TRUE, F.dev));
+    primitivModel_t *m1 = nullptr; OKC(primitivCreateModel(&m1)); OKC(primitivAddParameterToModel(m1, "p", p1));
+    Parameter P1; P1.load(F.param_path, true, &T.dev);
+    Model M1; M1.add("p", P1);
+    if (name == "primitivSaveModel") {
+      st = primitivSaveModel(m1, c_out.c_str(), v[0]);
+      c = st == PRIMITIV_C_OK ? "ok " + file_digest(c_out) : "err";
+      cpp = cpp_try([&] { M1.save(cpp_out, v[0] != 0); return file_digest(cpp_out); });
+      return cmp(c, cpp);
+    }
+    M1.save(mfile, true);
+    primitivParameter_t *p2 = nullptr; OKC(primitivCreateParameter(&p2));
+    primitivModel_t *m2 = nullptr; OKC(primitivCreateModel(&m2)); OKC(primitivAddParameterToModel(m2, "p", p2));
+    st = primitivLoadModel(m2, mfile.c_str(), v[0], F.dev);
+    c = "err";
+    if (st == PRIMITIV_C_OK) {
+      PRIMITIV_C_BOOL hs = 7; OKC(primitivHasParameterStats(p2, "a", &hs));
+      const primitivTensor_t *val = nullptr; OKC(primitivGetParameterValue(p2, &val));
+      c = "ok stats=" + std::to_string(hs) + " " + c_tensor_digest(val);
+    }
+    cpp = cpp_try([&] { Parameter P2; Model M2; M2.add("p", P2); M2.load(mfile, v[0] != 0, &T.dev);
+                        return "stats=" + std::to_string((unsigned)P2.has_stats("a")) + " " + cpp_tensor_digest(P2.value()); });
+    return cmp(c, cpp);
+  }
+  return "unknown-wrapper";
 }
 
 // ---------------------------------------------------------------------------- main
